@@ -40,7 +40,7 @@ func absValue(v reflect.Value, withPos bool) any {
 		if t == posType {
 			if withPos {
 				p := v.Interface().(syntax.Pos)
-				return fmt.Sprintf("%d:%d:%d", p.Offset(), p.Line(), p.Col())
+				return fmt.Sprintf("@%d:%d:%d", p.Offset(), p.Line(), p.Col())
 			}
 			return nil
 		}
